@@ -166,6 +166,14 @@ func ruleIExact(c *engine.Context) *report.Rule {
 			r.Undischarged(T.Obj().Name()+": operand roles", p.RelPos(fn.Pos()), "%s", why)
 			continue
 		}
+		// premise of the per-type argument: which subscript type is built, and with which operands,
+		// does not depend on the operands' numeric values beyond the sign of a number
+		for _, site := range valueDependentConstruction(c, T, idxT, numF) {
+			r.Instances++
+			r.Oblige(false)
+			r.Violation(T.Obj().Name()+": construction depends on operand values in "+load.FuncName(site.Parent()), p.RelPos(site.Pos()),
+				"%s branches on the numeric values of the slice operands (more than a sign test): which subscript is built for `start:end:step` then depends on the numbers, and the per-type conformity with Python's slicing shown here no longer covers the selector as written", load.FuncName(site.Parent()))
+		}
 		sym := func(role string, f int) string { return fmt.Sprintf("field:recv.f%d.f%d", roles[role], f) }
 		flag := func(role string) string { return fmt.Sprintf("recv.f%d.f%d", roles[role], omF) }
 		les, skipped, problems, _ := intarith.Exactness(p, fn)
@@ -448,4 +456,107 @@ func boundConforms(le *intarith.LoopEntry, asc bool, role string, omitted bool, 
 	return "the normalised " + role + " is " + F.String() + ", which is none of the values Python's slice.indices can give (value, value+len, or a limit of " + lim + ")"
 }
 
-var _ = ssa.Value(nil)
+// valueDependentConstruction lists the branch conditions in the builder of T, and in the grammar
+// actions that call it, that read the number of an index operand other than through a comparison
+// with the constant 0.
+func valueDependentConstruction(c *engine.Context, T, idxT *types.Named, numF int) []ssa.Instruction {
+	p := c.P
+	var out []ssa.Instruction
+	readsNumber := func(v ssa.Value) bool {
+		var chk func(v ssa.Value, d int) bool
+		chk = func(v ssa.Value, d int) bool {
+			if d > 6 {
+				return false
+			}
+			switch x := v.(type) {
+			case *ssa.UnOp:
+				if fa, ok := x.X.(*ssa.FieldAddr); ok && fa.Field == numF {
+					if pt, ok := fa.X.Type().(*types.Pointer); ok && types.Identical(pt.Elem(), idxT) {
+						return true
+					}
+				}
+				return chk(x.X, d+1)
+			case *ssa.BinOp:
+				return chk(x.X, d+1) || chk(x.Y, d+1)
+			case *ssa.Phi:
+				for _, e := range x.Edges {
+					if chk(e, d+1) {
+						return true
+					}
+				}
+			case *ssa.Convert:
+				return chk(x.X, d+1)
+			}
+			return false
+		}
+		return chk(v, 0)
+	}
+	isNumberLoad := func(v ssa.Value) bool {
+		ld, ok := v.(*ssa.UnOp)
+		if !ok {
+			return false
+		}
+		fa, ok := ld.X.(*ssa.FieldAddr)
+		if !ok || fa.Field != numF {
+			return false
+		}
+		pt, ok := fa.X.Type().(*types.Pointer)
+		return ok && types.Identical(pt.Elem(), idxT)
+	}
+	scan := func(blocks []*ssa.BasicBlock) {
+		for _, b := range blocks {
+			ifi, ok := b.Instrs[len(b.Instrs)-1].(*ssa.If)
+			if !ok {
+				continue
+			}
+			bo, ok := ifi.Cond.(*ssa.BinOp)
+			if !ok || !(readsNumber(bo.X) || readsNumber(bo.Y)) {
+				continue
+			}
+			// allowed: number OP 0
+			if cv, isC := cfgutilConst(bo.Y); isC && cv == 0 && isNumberLoad(bo.X) {
+				continue
+			}
+			if cv, isC := cfgutilConst(bo.X); isC && cv == 0 && isNumberLoad(bo.Y) {
+				continue
+			}
+			out = append(out, ifi)
+		}
+	}
+	// the builder(s) of T
+	var builders []*ssa.Function
+	for _, fn := range p.Funcs {
+		if fn.Blocks == nil || !p.ParsePhase[fn] || p.FuncIsGenerated(fn) {
+			continue
+		}
+		for _, b := range fn.Blocks {
+			for _, ins := range b.Instrs {
+				if al, ok := ins.(*ssa.Alloc); ok && types.Identical(al.Type().(*types.Pointer).Elem(), T) {
+					builders = append(builders, fn)
+				}
+			}
+		}
+	}
+	for _, fn := range builders {
+		scan(fn.Blocks)
+	}
+	blocks, _ := actionBlocksOf(c)
+	for _, bl := range blocks {
+		calls := false
+		for _, b := range bl {
+			for _, ins := range b.Instrs {
+				if call, ok := ins.(*ssa.Call); ok {
+					for _, fn := range builders {
+						if call.Call.StaticCallee() == fn {
+							calls = true
+						}
+					}
+				}
+			}
+		}
+		if calls {
+			scan(bl)
+		}
+	}
+	return out
+}
